@@ -9,7 +9,7 @@ body, whoever makes it (the worker, a consumer's background task, a broker actin
 * the loop records each task's parent, so "nested" is decided by dynamic extent, not by repid's own flag: an execution is nested
   iff some other wrapped operation of the connection is still executing and its body task is this execution's task or one of
   its ancestors.  A background task spawned inside an operation that has long returned is *not* nested;
-* counting subscribers on all signals of the connection.
+* emissions counted at the connection's signal emitter (no subscriber is added).
 
 At quiescence, per operation name: top-level executions <= before-signals and after-signals <= top-level executions that
 returned (the exact counts for the script's own calls are judged by the script oracle).
@@ -72,6 +72,8 @@ class Probe:
             def get_consumer(*a: Any, _gc: Any = gc, **k: Any) -> Any:
                 c = _gc(*a, **k)
                 self._wrap_obj(c)
+                if getattr(self, "_emit", None) is not None:
+                    self._rewire(c)
                 return c
             get_consumer._mwprobe = True  # type: ignore[attr-defined]
             obj.get_consumer = get_consumer
@@ -115,16 +117,27 @@ class Probe:
             if b is None:
                 continue
             self._wrap_obj(getattr(b, "_mwprobe_target", b))
-        for op in WRAPPED:
-            for phase in ("before", "after"):
-                sig = f"{phase}_{op}"
-                conn.middleware.add_subscriber(self._counter(sig))
+        # emissions are counted at the emitter, not by subscribing: the set of subscribers stays exactly what the case says
+        # (code may - wrongly - behave differently depending on who subscribed to what)
+        orig_emit = conn.middleware.emit_signal
 
-    def _counter(self, sig: str) -> Any:
-        def fn() -> None:
-            self.signals[sig] = self.signals.get(sig, 0) + 1
-        fn.__name__ = sig
-        return fn
+        async def emit(name: str, kwargs: dict) -> None:
+            self.signals[name] = self.signals.get(name, 0) + 1
+            await orig_emit(name, kwargs)
+
+        self._emit = emit
+        conn.middleware.emit_signal = emit  # picked up by every processor created from now on (actor_run)
+        for b in (conn.message_broker, conn.args_bucket_broker, conn.results_bucket_broker):
+            if b is not None:
+                self._rewire(b)
+
+    def _rewire(self, obj: Any) -> None:
+        if getattr(obj, "_signal_emitter_var", None) is not None:
+            obj._signal_emitter_var = self._emit  # consumers created later inherit it
+        for name in getattr(obj, "__WRAPPED_METHODS__", ()):
+            w = getattr(obj, name, None)
+            if getattr(w, "_repid_signal_emitter", None) is not None:
+                w._repid_signal_emitter = self._emit
 
     # ---- verdict
     def mismatches(self) -> list[str]:
